@@ -387,6 +387,7 @@ MANIFEST_META = {
                   "construction with any spelling), with the default-basis algebra of the same signature through the harness' own "
                   "relabelling map phi; pss-relative operators are compared w.r.t. phi(pss). Pairs of algebras that differ in ordered "
                   "metric or basis must make every binary operator raise."
-                  " Rejection is also required the N-th time (after a legitimate call with the same key patterns) and for a foreign first or later argument of a registered function (numeric and symbolic).",
+                  " Rejection is also required the N-th time (after a legitimate call with the same key patterns) and for a foreign first or later argument of a registered function (numeric and symbolic)."
+                  " The operator is also run through alg.register on the custom-basis algebra.",
     "level_note": "Default-basis side is kingdon itself (C01-C08 decide it). d<=4 quick, d<=5 thorough. Matrix representations: C18.",
 }
